@@ -388,6 +388,68 @@ pub fn run_c14(tier: &str, parity_odd: bool, shard: usize, nshards: usize, rep: 
             }
         }
     }
+    // ---- x and y of equal length differing in exactly one byte, at every position, for every length up to 80 and
+    // a few longer ones (word-at-a-time comparison / hashing shortcuts skip or mis-order some positions)
+    let mut diff_pairs = 0u64;
+    {
+        let mut lens: Vec<usize> = (1..=80).collect();
+        lens.extend([127usize, 128, 129, 255, 256, 257]);
+        for (li, &n) in lens.iter().enumerate() {
+            if li % nshards != shard {
+                continue;
+            }
+            let x: Vec<u8> = (0..n).map(|i| (i * 29 + 3) as u8 | 1).collect();
+            oracle::begin_execution(parity_odd);
+            let bx = bytes_reps(&x);
+            let mx = bytesmut_reps(&x);
+            let positions: Vec<usize> = if n <= 80 { (0..n).collect() } else { vec![0, 1, 7, 8, 15, 16, 17, n / 2, n - 17, n - 16, n - 9, n - 8, n - 2, n - 1] };
+            for &p in &positions {
+                for delta in [1u8, 0x80] {
+                    let mut y = x.clone();
+                    y[p] = y[p].wrapping_add(delta);
+                    diff_pairs += 1;
+                    cx.pair = format!("equal length {} differing only at index {} ({:02x} vs {:02x})", n, p, x[p], y[p]);
+                    oracle::sys::set_crash_note(&cx.pair);
+                    let by = oracle::subject(|| Bytes::copy_from_slice(&y));
+                    let my = oracle::subject(|| BytesMut::from(&y[..]));
+                    let (bi, mi) = ((p + n) % bx.len(), (p + n) % mx.len());
+                    let b: &Bytes = &bx[bi].1;
+                    let m: &BytesMut = &mx[mi].1;
+                    cx.ord("Bytes vs Bytes", b, &by, &x, &y);
+                    cx.ord("Bytes vs Bytes", &by, b, &y, &x);
+                    cx.ord("BytesMut vs BytesMut", m, &my, &x, &y);
+                    cx.ord("BytesMut vs BytesMut", &my, m, &y, &x);
+                    both_orders!(cx, "Bytes", b, &x, "[u8]", &y[..], &y);
+                    both_orders!(cx, "BytesMut", m, &x, "Vec<u8>", &y, &y);
+                    cx.eq_only("Bytes vs BytesMut (eq)", b, &my, &x, &y);
+                    cx.rep.evaluations += 4;
+                    if oracle::subject(|| b.cmp(&by)) != x.cmp(&y) || oracle::subject(|| by.cmp(b)) != y.cmp(&x) {
+                        cx.fail("Ord for Bytes", "cmp", format!("{:?}", b.cmp(&by)), format!("{:?}", x.cmp(&y)));
+                    }
+                    if oracle::subject(|| m.cmp(&my)) != x.cmp(&y) || oracle::subject(|| my.cmp(m)) != y.cmp(&x) {
+                        cx.fail("Ord for BytesMut", "cmp", format!("{:?}", m.cmp(&my)), format!("{:?}", x.cmp(&y)));
+                    }
+                    if oracle::subject(|| rec(&by)) != rec(&y[..]) {
+                        cx.fail("Hash for Bytes", "hash", "different write sequence".into(), "that of [u8]".into());
+                    }
+                    if oracle::subject(|| rec(&my)) != rec(&y[..]) {
+                        cx.fail("Hash for BytesMut", "hash", "different write sequence".into(), "that of [u8]".into());
+                    }
+                    oracle::subject(|| {
+                        drop(by);
+                        drop(my);
+                    });
+                }
+            }
+            oracle::subject(|| {
+                drop(bx);
+                drop(mx);
+            });
+            let _ = oracle::end_execution();
+            let _ = oracle::take_violation();
+        }
+    }
+    cx.rep.extra_num("single_difference_pairs", diff_pairs);
     // ---- BytesMut handles carved from one allocation: an empty handle at the start / end of a non-empty one
     for x in uni.iter().filter(|x| !x.is_empty() && shard == 0) {
         oracle::begin_execution(parity_odd);
@@ -533,6 +595,42 @@ fn c15_one(x: &[u8], which: &str, dbg: &str, lx: &str, ux: &str, rep: &mut Repor
     }
 }
 
+/// Width, precision, fill, alignment, sign, `#` and `0` flags must not change any of the three outputs:
+/// the Debug output is *always* a literal that decodes to the contents, hex is *exactly* two digits per byte.
+fn c15_flags(x: &[u8], which: &str, b: &dyn Fn(u8) -> String, plain: (&str, &str, &str), rep: &mut Report) {
+    for k in 0..10u8 {
+        rep.evaluations += 1;
+        let got = match oracle::subject_try(|| b(k)) {
+            Ok(g) => g,
+            Err(e) => {
+                rep.violate("C15", "format-panic", &format!("formatting {} {:02x?} with format spec #{} panicked: {}", which, x, k, e), "");
+                continue;
+            }
+        };
+        let (spec, want) = match k {
+            0 => ("{:4?}", plain.0),
+            1 => ("{:.0?}", plain.0),
+            2 => ("{:>12?}", plain.0),
+            3 => ("{:*<9?}", plain.0),
+            4 => ("{:#x}", plain.1),
+            5 => ("{:6x}", plain.1),
+            6 => ("{:.1x}", plain.1),
+            7 => ("{:#X}", plain.2),
+            8 => ("{:08X}", plain.2),
+            _ => ("{:+x}", plain.1),
+        };
+        if k <= 3 {
+            // Debug with flags: must still be a valid literal decoding to the contents
+            match parse_byte_string_literal(&got) {
+                Ok(v) if v == x => {}
+                _ => rep.violate("C15", "debug-flags", &format!("Debug output {:?} of {} {:02x?} under format spec {} is not a byte-string literal of the contents (plain output {:?})", got, which, x, spec, want), ""),
+            }
+        } else if got != want {
+            rep.violate("C15", "hex-flags", &format!("hex output {:?} of {} {:02x?} under format spec {} is not exactly two digits per byte ({:?})", got, which, x, spec, want), "");
+        }
+    }
+}
+
 fn c15_universe(tier: &str) -> Vec<Vec<u8>> {
     let mut v: Vec<Vec<u8>> = vec![vec![]];
     for a in 0..=255u8 {
@@ -564,6 +662,22 @@ fn c15_universe(tier: &str) -> Vec<Vec<u8>> {
                 }
             }
             v.push((0..n).map(|i| b' ' + (i % 95) as u8).collect());
+        }
+    }
+    // uniform fills and fills with one odd byte, every length 1..=80 and block sizes beyond (word-at-a-time
+    // formatters: an all-zero / all-ff word, a leading-zero nibble, one deviating byte per word)
+    let mut flens: Vec<usize> = (1..=80).collect();
+    flens.extend([96usize, 128, 129, 256, 1024]);
+    for &n in &flens {
+        for &f in &[0x00u8, 0x01, 0x0f, 0x10, 0x7f, 0x80, 0xff, b'a'] {
+            v.push(vec![f; n]);
+            if n >= 4 && (n <= 40 || tier == "thorough") {
+                for pos in [0, n / 2, n - 1] {
+                    let mut s = vec![f; n];
+                    s[pos] = 0xab;
+                    v.push(s);
+                }
+            }
         }
     }
     // all strings of length 3..=maxl over the escape-relevant alphabet
@@ -625,6 +739,23 @@ pub fn run_c15(tier: &str, parity_odd: bool, shard: usize, nshards: usize, rep: 
                 }
             };
             c15_one(x, name, &d, &l, &u, rep);
+            if k == 0 && (x.len() != 2 || i % 16 == 0) {
+                let f = |k: u8| -> String {
+                    match k {
+                        0 => format!("{:4?}", b),
+                        1 => format!("{:.0?}", b),
+                        2 => format!("{:>12?}", b),
+                        3 => format!("{:*<9?}", b),
+                        4 => format!("{:#x}", b),
+                        5 => format!("{:6x}", b),
+                        6 => format!("{:.1x}", b),
+                        7 => format!("{:#X}", b),
+                        8 => format!("{:08X}", b),
+                        _ => format!("{:+x}", b),
+                    }
+                };
+                c15_flags(x, name, &f, (&d, &l, &u), rep);
+            }
             if k == 0 {
                 distinct_outputs.insert(oracle::report::hash128(d.as_bytes()) as u64);
                 let mut j = 0;
@@ -650,6 +781,23 @@ pub fn run_c15(tier: &str, parity_odd: bool, shard: usize, nshards: usize, rep: 
                 }
             };
             c15_one(x, name, &d, &l, &u, rep);
+            if k == 0 && (x.len() != 2 || i % 16 == 0) {
+                let f = |k: u8| -> String {
+                    match k {
+                        0 => format!("{:4?}", m),
+                        1 => format!("{:.0?}", m),
+                        2 => format!("{:>12?}", m),
+                        3 => format!("{:*<9?}", m),
+                        4 => format!("{:#x}", m),
+                        5 => format!("{:6x}", m),
+                        6 => format!("{:.1x}", m),
+                        7 => format!("{:#X}", m),
+                        8 => format!("{:08X}", m),
+                        _ => format!("{:+x}", m),
+                    }
+                };
+                c15_flags(x, name, &f, (&d, &l, &u), rep);
+            }
         }
         if (i < 3 || i % 9000 == 0) && rep.violations.is_empty() {
             let d = format!("{:?}", br[0].1);
